@@ -489,9 +489,11 @@ def run_property(spec, ctx, replay=None):
         corr += bad
         remaining = [i for i in remaining if i not in bad]
 
-    def fails_direct(c):
+    def fails_direct(c, crash_mode=False):
         o, _ = spec.run_oracle([c])
-        return o is None or spec.direct_check(c, o[0]) is not None
+        if o is None:
+            return crash_mode          # a candidate that merely crashes the oracle is ill-formed, not a smaller witness
+        return (not crash_mode) and spec.direct_check(c, o[0]) is not None
 
     def fails_corr(c):
         o, _ = spec.run_oracle([c])
@@ -503,7 +505,8 @@ def run_property(spec, ctx, replay=None):
         if k in seen or len(seen) >= 3:
             continue
         seen.add(k)
-        small = generic_shrink(cases[i], fails_direct, spec.list_fields)
+        crash = msg.startswith("implementation crashed")
+        small = generic_shrink(cases[i], lambda c: fails_direct(c, crash), spec.list_fields)
         o, _ = spec.run_oracle([small])
         m2 = (spec.direct_check(small, o[0]) if o else msg) or msg
         ctx.violation("direct:" + k, {"case": small, "what": m2, "observed": o[0] if o else None}, True)
